@@ -180,6 +180,7 @@ class Executor(Base, ContMixin, ExprMixin, CallMixin, LibMixin, StmtMixin, CompM
                 obj = self.ev1(node.value, pre, frame)
                 fs = ctx.shapes.field(obj.t.cls, node.attr)
                 per_obj.setdefault(fs.fid, []).append(obj.term)
+                per_obj.setdefault(fs.fid + '$some', []).append(obj.term)
                 continue
             if isinstance(node, ast.Subscript):
                 # item of a container field: treat the whole field location as modifiable
